@@ -349,6 +349,16 @@ Proof.
   - right. right. exists d, w0, w1, e0. split; [exact H|congruence].
 Qed.
 
+Theorem error_location_here : forall p l w (s : st) e w', run_upto p (init T V W w) = Ok s ->
+  pending s = None -> (forall d w0, snd (read_dep d w0) = None) -> step_line l s = Err e w' -> e = ELoc None (Some (phys_after 1 p)).
+Proof.
+  intros p l w s e w' E P R Es.
+  destruct (step_line_cls _ _ _ _ Es) as [H|a cf n H He|d w0 w1 e0 H He].
+  - rewrite H. rewrite (line_counter _ _ _ E). reflexivity.
+  - congruence.
+  - specialize (R d w0). rewrite H in R. discriminate.
+Qed.
+
 (* ... and of an error raised after the last line: parse()'s final flush or finalize() *)
 Theorem finish_location : forall ls w (s : st) e w', run_upto ls (init T V W w) = Ok s ->
   Lines.finish T V W s = Err e w' ->
